@@ -12,6 +12,7 @@
 (*   "c31one"  one option x one subset of sources (x bool values)          *)
 (*   "c31all"  whole configurations: every option gets a subset at once    *)
 (*   "c31rt"   render/parse of generated configurations                    *)
+(*   "c31"     the three C31 families in one run                           *)
 (* Every behaviour is replayed by harness/bind/clib against the real       *)
 (* commands (ctl.ExportCommand / ctl.ImportCommand against an in-process   *)
 (* server; the cobra command tree of cmd.NewRootCommand).                  *)
@@ -257,6 +258,7 @@ C31Next ==
     /\ \/ Family = "c31one" /\ (ResolveOne \/ Table)
        \/ Family = "c31all" /\ (ResolveAll \/ Table)
        \/ Family = "c31rt"  /\ (RenderOne \/ RenderAllOpts \/ Table)
+       \/ Family = "c31"    /\ (ResolveOne \/ ResolveAll \/ RenderOne \/ RenderAllOpts \/ Table)
 
 \* (M) laws of the resolution order and of the patterns
 C31Laws ==
